@@ -141,8 +141,13 @@ class quadtree(object):
 
     def search(self, pos):
         leaf = self.leaf(pos)
-        if leaf: return leaf.search_wave(pos)
-        else: return None
+        while leaf:
+            elt = leaf.search_wave(pos)
+            if elt: return elt
+            # containing element may not be reachable from the elements of
+            # the leaf through neighbours meeting the leaf, so widen the search:
+            leaf = leaf.parent
+        return None
 
     def leaf(self, pos):
         if in_rectangle(pos, self.bounds):
